@@ -112,7 +112,121 @@ def s_diff(draw, tier):
     return c
 
 
+# ------------------------------------------------------------------ truncation through the stream reader (validation off)
+def o_reader(case):
+    """a complete frame, then frames whose length field and payload are cut short while the three trailer bytes are
+    stale (those of the complete transmission) / zero / arbitrary; with validate=0 nothing but the payload decides:
+    no message may be delivered for a cut frame"""
+    import io
+
+    from pyrtcm import RTCMReader
+
+    payload = bytes.fromhex(case["payload"])
+    ident, w = model.decode(payload)
+    full = w.payload(0)
+    good = framing.build_frame(full)
+    hdr = 3 if ident.startswith("4076") else 2
+    cuts = sorted({len(full) - 1, max(hdr, len(full) // 2), hdr, max(hdr, len(full) - 2)} | {hdr + (case["k"] + j * 7) % max(1, len(full) - hdr) for j in range(4)})
+    cuts = [c for c in cuts if hdr <= c < len(full)]
+    evals = 0
+    for trailer_kind in ("stale", "zero", "own"):
+        frames_ = [good]
+        for c in cuts:
+            body = bytes([0xD3, c >> 8, c & 0xFF]) + full[:c]
+            tr = good[-3:] if trailer_kind == "stale" else (b"\0\0\0" if trailer_kind == "zero" else framing.crc_table(body).to_bytes(3, "big"))
+            frames_.append(body + tr)
+            frames_.append(good)
+        rdr = RTCMReader(io.BytesIO(b"".join(frames_)), validate=0, quitonerror=case["qoe"])
+        got = []
+        for _ in range(len(frames_) + 4):
+            try:
+                raw, parsed = rdr.read()
+            except Exception:  # pylint: disable=broad-except
+                continue  # raise mode: the cut frame is reported, fine
+            if raw is None and parsed is None:
+                break
+            got.append((raw, parsed))
+        evals += len(frames_)
+        for raw, parsed in got:
+            if len(raw) - 6 < len(full) and parsed is not None:
+                raise Fail("truncated-frame-delivered-by-reader", f"{ident}: reader (validate=0, {trailer_kind} trailer bytes) delivered a parsed message for a payload cut to {len(raw) - 6} of {len(full)} bytes")
+        if sum(1 for raw, _ in got if raw == good) != len(cuts) + 1:
+            raise Fail("complete-frame-lost-by-reader", f"{ident}: {sum(1 for raw, _ in got if raw == good)} of {len(cuts) + 1} complete frames delivered (validate=0, {trailer_kind} trailers)")
+    return Res(nontrivial=bool(cuts), classes=[f"qoe{case['qoe']}"], evals=evals)
+
+
+@st.composite
+def s_reader(draw, ids):
+    c = draw(gen.messages(draw(st.sampled_from(ids)), "small"))
+    c["k"] = draw(st.integers(0, 500))
+    c["qoe"] = draw(st.sampled_from([0, 1, 2]))
+    return c
+
+
+def plan_reader(tier, shard, nshards):
+    ids = gen.all_idents_safe()[shard::nshards]
+    return [("", s_reader(ids), 40 if tier == "quick" else 800)] if ids else []
+
+
+# ------------------------------------------------------------------ the same guarantee in an optimised interpreter (python -O)
+_CHILD = r"""
+import sys
+from pyrtcm import RTCMMessage
+for line in sys.stdin:
+    p = bytes.fromhex(line.strip())
+    hdr = 3 if (p[0] << 4 | p[1] >> 4) == 4076 else 2
+    try:
+        RTCMMessage(payload=p)
+    except Exception as e:
+        print("REJECT-FULL", line.strip()[:40], type(e).__name__)
+        continue
+    for cut in range(len(p) - 1, hdr - 1, -1):
+        try:
+            RTCMMessage(payload=p[:cut])
+            print("ACCEPT", cut, len(p), line.strip())
+            break
+        except Exception:
+            pass
+print("DONE")
+"""
+
+
+def o_optimized(case):
+    """every truncation of a batch of complete messages, decided in a child interpreter started with -O (asserts
+    compiled out): validation that lives in an assert statement is no validation"""
+    import os
+    import subprocess
+    import sys
+
+    from pv import core
+
+    fulls = []
+    for c in case["batch"]:
+        _, w = model.decode(bytes.fromhex(c))
+        fulls.append(w.payload(0).hex())
+    env = dict(os.environ, PYTHONPATH=core.REPO_SRC, PYTHONOPTIMIZE="1")
+    r = subprocess.run([sys.executable, "-O", "-c", _CHILD], input="\n".join(fulls) + "\n", capture_output=True, text=True, env=env, timeout=600, check=False)
+    if "DONE" not in r.stdout:
+        raise core.HarnessError(f"optimised child failed: {r.stderr[-300:]}")
+    for line in r.stdout.splitlines():
+        if line.startswith("ACCEPT"):
+            _, cut, n, hx = line.split()
+            raise Fail("truncated-message-accepted-under-O", f"python -O: a {n}-byte message cut to {cut} bytes was accepted; payload {hx[:80]}")
+        if line.startswith("REJECT-FULL"):
+            raise Fail("complete-message-rejected-under-O", line)
+    return Res(nontrivial=True, classes=["python-O"], evals=sum(len(f) // 2 for f in fulls))
+
+
+@st.composite
+def s_optimized(draw, tier):
+    ids = gen.all_idents_safe()
+    batch = [draw(gen.messages(draw(st.sampled_from(ids)), "small"))["payload"] for _ in range(12)]
+    return {"batch": batch}
+
+
 def _short(c):
+    if "batch" in c:
+        return {"batch": [b[:60] for b in c["batch"][:3]], "n": len(c["batch"])}
     c = dict(c)
     if len(c.get("payload", "")) > 160:
         c["payload_len"] = len(c["payload"]) // 2
@@ -130,5 +244,7 @@ SUBS = [
         need={"cut-inside-group": 1, "cut-right-after-header": 1, "cut-inside-msm-masks": 1},
         sample=_short,
     ),
+    Sub("truncation_via_reader_validate0", o_reader, plan=plan_reader, rule="at least one cut frame in the stream", sample=_short),
+    Sub("all_truncations_python_O", o_optimized, strategy=s_optimized, examples=(2, 20), rule="every case (12 messages x all cuts in a python -O child)", sample=_short),
     Sub("accept_iff_fits", o_diff, strategy=s_diff, examples=(400, 10000), rule="payload under a defined number", need={"fits": 1, "overruns": 1}, sample=_short),
 ]
